@@ -100,10 +100,31 @@ if not PKG or not os.path.isdir(PKG):
 if not SERVER or not os.path.exists(SERVER):
     broken("oracle server binary missing (JLV_ORACLE_SERVER)")
 sys.path.insert(0, PKG)
+IMPORT_CASE = json.dumps({"import_check": True})
+
+
+def unusable(msg):
+    """The package was assembled from a successful build of the working tree, yet the module cannot be used at all.
+    For C19 that is the property failing on every input (nothing is returned for any rule and data); for the Python
+    leg of C01 nothing can be explored, which is inconclusive."""
+    if args.prop != "C19":
+        broken(msg)
+    s = Stats()
+    s.violations.append({"case_text": IMPORT_CASE, "msg": "[%s] %s" % (args.pkg, msg), "from": "import"})
+    RESULT[args.replay_sub or "py_apply"] = s
+    finish(0)
+
+
+for needed in ("__init__.py", "jsonlogic.so"):
+    if not os.path.exists(os.path.join(PKG, "jsonlogic_rs", needed)):
+        broken("the assembled package lacks %s (build artefact problem)" % needed)
 try:
     import jsonlogic_rs  # noqa: E402
-except Exception as e:  # pragma: no cover
-    broken("cannot import jsonlogic_rs from %s: %r" % (PKG, e))
+except BaseException as e:  # pragma: no cover
+    unusable("import jsonlogic_rs fails with %r although the extension and the wrapper were built from the working tree: no call can return the library's value" % (e,))
+for name in ("apply", "apply_serialized"):
+    if not callable(getattr(jsonlogic_rs, name, None)):
+        unusable("the module has no callable %s" % name)
 
 server = subprocess.Popen([SERVER], stdin=subprocess.PIPE, stdout=subprocess.PIPE, text=True, encoding="utf-8", env=dict(os.environ, RUST_BACKTRACE="0"))
 
@@ -546,6 +567,10 @@ if args.replay_sub:
     stats = Stats()
     RESULT[args.replay_sub] = stats
     case = json.loads(open(args.replay_case_file).read())
+    if isinstance(case, dict) and case.get("import_check"):
+        # the import check at the top of this script is the replay; reaching this point means the module is usable
+        stats.record(IMPORT_CASE, "import check", True)
+        finish(0)
     try:
         label, nt = BODIES[args.replay_sub](stats, case)
         stats.record(describe(case), label, nt)
